@@ -70,6 +70,12 @@ claim("C10", "exploration",
   "deterministic simulation: seeded baton scheduler over instrumented real code, linearizability checking of recorded histories (porcupine), schedule shrinking + replay",
   "DESIGN.md §5 C10")
 
+claim("C11", "exploration",
+  "Seeded simulation of 2-4 unlinked instances (same compiled plan and a second plan; one runtime or two runtimes sharing a compilation cache), each with its own stdout, mount and arguments; calls are tasks suspended at host calls so that an instance sits mid-call with native frames live while others mutate memory, globals, tables, dropped segments, descriptors and stdout; per instance the outcome sequence, stdout bytes, descriptor numbers, created files and final state must equal the same calls on a lone instance in a fresh runtime (wazero against wazero, same engine). Sampling of programs and interleavings.",
+  "Trusted: the comparison harness; the host function's return value is a pure function of its arguments and the instance's own call count.",
+  "deterministic simulation: tape-scheduled interleaving of suspended calls across instances vs lone-instance replay of the same call sequence",
+  "DESIGN.md §5 C11")
+
 def main():
     m = dict(version=1,
       setup_cmd="./setup.sh",
